@@ -48,7 +48,7 @@ def main(argv=None) -> int:
     seed = int(os.environ.get("VERIF_SEED") or 0)
     modname, rule, exhaustive = TABLE[pid]
     mod = importlib.import_module(f"harness.{modname}")
-    chk = Check(pid, a.tier, seed)
+    chk = Check(pid, a.tier, seed, level=("exploration" if pid == "C06" else "model_checking"))
     from . import tlc as _tlc
     _tlc.COVERAGE = (a.tier == "thorough")
     try:
